@@ -66,7 +66,9 @@ template<typename S, bool IsDouble> static void run(const std::vector<std::strin
     V3 b = quaternionToEulerAngles<S>(q);
     put(b[0]); put(b[1]); put(b[2]);
     if constexpr (IsDouble) {
-      SmartRotation3D s(e[0], e[1], e[2]);
+      SmartRotation3D s(0.4 + e[2], -e[0], 0.1 + e[1]);   // reused object: re-initialised with the case's angles
+      (void)s.R();
+      s.init(e[0], e[1], e[2]);
       putm(s.R());
     }
   } else if (k == "r2e") {
